@@ -7,26 +7,36 @@
 (*           on the leaves, what each leaf answers, the planned range         *)
 (*   Plan    the targets the node chooser handed to the root                  *)
 (*   Send    a request left for a target                                      *)
-(*   Answer  the root's task context starts handling the answer of a target   *)
+(*   AnswerBegin / AnswerEnd  the root's task context starts / has finished   *)
+(*           handling the answer of a target (HandleResponse called/returned) *)
 (*   Result  what MetricDataSearch returned (cells as [group, slot, value])   *)
 (* Every step must be a step of RootGather (a Result the protocol does not    *)
 (* enable -- e.g. before every planned target has answered -- is rejected),   *)
 (* and the cells of a successful answer must be the merge, by the field       *)
 (* type's aggregate, of the points of ALL leaves.                             *)
+(* The two steps of a handler (AnswerCount, AnswerMerge) are not logged: they *)
+(* happen somewhere between its AnswerBegin and its AnswerEnd (TInternal),    *)
+(* handlers of different answers overlap in the log as they did in the run,   *)
+(* a Result may be logged while a handler is between the two.  Whatever the   *)
+(* interleaving was, it must be one the specification has: with ONE critical  *)
+(* section per answer, an answer whose counting let the query complete is in  *)
+(* the result.                                                                *)
 EXTENDS RootGather, Json
 
 Trace == ndJsonDeserialize("trace.ndjson")
 VARIABLES l,
           pts,    \* [leaf -> sequence of <<group, slot, value>>]
-          meta    \* [ftype, grouped, start, end, iv]
-tvars == <<vars, l, pts, meta>>
+          meta,   \* [ftype, grouped, start, end, iv]
+          begun,  \* targets whose handler was entered
+          ended   \* targets whose handler returned
+tvars == <<vars, l, pts, meta, begun, ended>>
 ASSUME TLCSet(1, 0)
 Ev(e) == l <= Len(Trace) /\ Trace[l].ev = e /\ l' = l + 1
 Line == Trace[l]
 Holds(b) == b = TRUE
 SeqSet(s) == {s[i] : i \in 1..Len(s)}
 
-TraceInit == l = 1 /\ Init /\ pts = << >> /\ meta = << >>
+TraceInit == l = 1 /\ Init /\ pts = << >> /\ meta = << >> /\ begun = {} /\ ended = {}
 
 TReset ==
   /\ Ev("Reset")
@@ -41,21 +51,36 @@ TReset ==
   /\ SetupState([t \in SeqSet(Line.leaves) |-> Line.kinds[t]])
   /\ pts' = [t \in SeqSet(Line.leaves) |-> Line.pts[t]]
   /\ meta' = [ftype |-> Line.ftype, grouped |-> Line.grouped, start |-> Line.start, end |-> Line.end, iv |-> Line.iv]
+  /\ begun' = {} /\ ended' = {}
 
 TPlan ==
   /\ Ev("Plan")
   /\ Holds(Len(Line.targets) = Cardinality(SeqSet(Line.targets)))
   /\ Plan(SeqSet(Line.targets))
-  /\ UNCHANGED <<pts, meta>>
+  /\ UNCHANGED <<pts, meta, begun, ended>>
 
-TSend == Ev("Send") /\ Send(Line.t) /\ UNCHANGED <<pts, meta>>
+TSend == Ev("Send") /\ Send(Line.t) /\ UNCHANGED <<pts, meta, begun, ended>>
 
-\* the answer the root handles is of the kind the leaf was set up to give
-TAnswer ==
-  /\ Ev("Answer")
-  /\ Holds(Line.t \in DOMAIN kinds /\ Line.kind = kinds[Line.t])
-  /\ Answer(Line.t)
-  /\ UNCHANGED <<pts, meta>>
+\* a handler is entered: the answer is one to a request that was sent, of the kind the leaf was set up to give, and
+\* every answer is handled once
+TAnswerBegin ==
+  /\ Ev("AnswerBegin")
+  /\ Holds(Line.t \in DOMAIN kinds /\ Line.kind = kinds[Line.t] /\ phase = "run" /\ Line.t \in sent \ begun)
+  /\ begun' = begun \cup {Line.t}
+  /\ UNCHANGED <<vars, pts, meta, ended>>
+
+\* the steps of the handlers that are inside HandleResponse (not logged)
+TInternal ==
+  /\ l <= Len(Trace)
+  /\ \E t \in begun \ ended : AnswerCount(t) \/ AnswerMerge(t)
+  /\ UNCHANGED <<l, pts, meta, begun, ended>>
+
+\* a handler returned: it has done both steps
+TAnswerEnd ==
+  /\ Ev("AnswerEnd")
+  /\ Holds(Line.t \in begun \ ended /\ Line.t \in handled)
+  /\ ended' = ended \cup {Line.t}
+  /\ UNCHANGED <<vars, pts, meta, begun>>
 
 \* ------------------------------------------------------------------ the merge of the answers of the leaves M
 Idx(M) == UNION {{<<t, i>> : i \in 1..Len(pts[t])} : t \in M}
@@ -84,9 +109,9 @@ TResult ==
      ELSE IF Line.err = "timeout"
      THEN Timeout
      ELSE Result /\ Holds(res'.kind = "err" /\ Line.err \in res'.errs)
-  /\ UNCHANGED <<pts, meta>>
+  /\ UNCHANGED <<pts, meta, begun, ended>>
 
-TraceNext == TReset \/ TPlan \/ TSend \/ TAnswer \/ TResult
+TraceNext == TReset \/ TPlan \/ TSend \/ TAnswerBegin \/ TInternal \/ TAnswerEnd \/ TResult
 TraceSpec == TraceInit /\ [][TraceNext]_tvars
 HighWater == TLCSet(1, IF l > TLCGet(1) THEN l ELSE TLCGet(1))
 TraceAccepted ==
